@@ -750,6 +750,10 @@ class SymEval:
                         and st.targets[0].id == name:
                     if isinstance(st.value, ast.Constant):
                         return T.const(st.value.value)
+                    if isinstance(st.value, (ast.BinOp, ast.UnaryOp)) and all(isinstance(n, (ast.BinOp, ast.UnaryOp, ast.Constant, ast.operator, ast.unaryop))
+                                                                             for n in ast.walk(st.value)) and _never_mutated(mi.tree, name):
+                        # a module-level constant spelled as arithmetic on literals (2**31 - 1): the same term as the expression in place
+                        return self.eval(st.value, Frame(f"{frame.module}.<module>", frame.module, None, {}))
                     simple = lambda v: isinstance(v, (ast.Name, ast.Attribute, ast.Constant)) or (
                         isinstance(v, ast.UnaryOp) and isinstance(v.op, ast.USub) and isinstance(v.operand, ast.Constant))
                     if isinstance(st.value, ast.Dict) and st.value.keys and all(isinstance(k, ast.Constant) for k in st.value.keys) \
@@ -1264,6 +1268,9 @@ class SymEval:
                 el = [x for x in T.walk(args[1][2]) if x[0] == "elem" and x[1] == src]
                 if len(set(el)) == 1:
                     return T.subst(args[1][2], {el[0]: src[1][2][0]})  # leaf-wise reading, as for tree_map
+        if name == "jax.random.split" and len(args) == 2 and not kwargs:
+            kwargs = [("num", args[1])]  # split(key, n) is split(key, num=n)
+            args = [args[0]]
         if name in ("numpy.full", "jax.numpy.full") and len(args) >= 2 and T.const_value(args[1]) is not None and all(k == "dtype" for k, _ in kwargs) and len(args) <= 3:
             # full(shape, c) is c * ones(shape) (the dtype is a cast, transparent like astype)
             return T.mul(args[1], self.call(T.sym(name.rsplit(".", 1)[0] + ".ones"), [args[0]], [], node, frame))
@@ -1480,7 +1487,7 @@ class SymEval:
         if not as_helper:
             self.depth += 1
         try:
-            self.exec_block(target.node.body, sub)
+            self.exec_block(_generator_as_list(target.node), sub)
         finally:
             if not as_helper:
                 self.depth -= 1
@@ -1770,6 +1777,53 @@ _REDUCTIONS = {f"{mod}.{f}": {"amax": "max", "amin": "min"}.get(f, f) for mod in
 _OPERATOR_FUNCS = {"operator.gt": ast.Gt, "operator.ge": ast.GtE, "operator.lt": ast.Lt, "operator.le": ast.LtE, "operator.eq": ast.Eq,
                    "operator.ne": ast.NotEq, "operator.add": ast.Add, "operator.sub": ast.Sub, "operator.mul": ast.Mult,
                    "operator.truediv": ast.Div, "operator.is_": ast.Is, "operator.is_not": ast.IsNot}
+
+
+_GEN_CACHE: Dict[int, list] = {}
+
+
+def _generator_as_list(fn: ast.FunctionDef) -> list:
+    """Body of a function; for a generator function, the body of the function that returns the list of the yielded values (what
+    iterating over the generator produces, in order): `yield v` becomes an append to a fresh local list that is returned."""
+    def own(n):
+        stack = list(n.body)
+        while stack:
+            x = stack.pop()
+            if isinstance(x, (ast.FunctionDef, ast.AsyncFunctionDef, ast.Lambda, ast.ClassDef)):
+                continue
+            yield x
+            stack.extend(ast.iter_child_nodes(x))
+    if not any(isinstance(x, (ast.Yield, ast.YieldFrom)) for x in own(fn)):
+        return fn.body
+    if id(fn) in _GEN_CACHE:
+        return _GEN_CACHE[id(fn)]
+    import copy
+
+    class Rw(ast.NodeTransformer):
+        def visit_FunctionDef(self, node):
+            return node
+
+        def visit_Lambda(self, node):
+            return node
+
+        def visit_Expr(self, node):
+            v = node.value
+            if isinstance(v, ast.Yield):
+                call = ast.Expr(value=ast.Call(func=ast.Attribute(value=ast.Name(id="__yielded", ctx=ast.Load()), attr="append", ctx=ast.Load()),
+                                               args=[v.value if v.value is not None else ast.Constant(value=None)], keywords=[]))
+                return ast.copy_location(call, node)
+            if isinstance(v, ast.YieldFrom):
+                call = ast.Expr(value=ast.Call(func=ast.Attribute(value=ast.Name(id="__yielded", ctx=ast.Load()), attr="extend", ctx=ast.Load()), args=[v.value], keywords=[]))
+                return ast.copy_location(call, node)
+            return node
+    body = [Rw().visit(copy.deepcopy(st)) for st in fn.body]
+    init = ast.copy_location(ast.Assign(targets=[ast.Name(id="__yielded", ctx=ast.Store())], value=ast.List(elts=[], ctx=ast.Load())), fn.body[0])
+    ret = ast.copy_location(ast.Return(value=ast.Name(id="__yielded", ctx=ast.Load())), fn.body[-1])
+    out = [init] + body + [ret]
+    for st in out:
+        ast.fix_missing_locations(st)
+    _GEN_CACHE[id(fn)] = out
+    return out
 
 
 def _search_loop(loop: ast.For, after: ast.stmt):
